@@ -28,7 +28,7 @@ def own_matrix(c, n):
     U = np.eye(2 ** n, dtype=complex)
     for op in c.operations:
         q = tuple(op.qubit_indices)
-        require(len(set(q)) == len(q) and all(0 <= i < n for i in q), lambda: f"operation {op} has invalid qubit indices {q} on {n} qubits")
+        require(len(set(q)) == len(q) and len(q) == op.gate.num_qubits and all(0 <= i < n for i in q), lambda: f"operation {op} has invalid qubit indices {q} on {n} qubits")
         U = ref.embed(ref.npm(op.gate.matrix), op.qubit_indices, n) @ U
     return U
 
